@@ -11,7 +11,7 @@ Local Open Scope nat_scope.
 Definition tview := (kind * pc * bool)%type.
 Definition dflt_tv : tview := (KPlain, PDone, false).
 
-Inductive class := CNeutral | CWait | CBottom | CBqU | CHold | CBad.
+Inductive class := CNeutral | CWait | CBottom | CBqU | CUCas | CHold | CBad.
 
 Definition cls (v : tview) : class :=
   match v with
@@ -20,13 +20,14 @@ Definition cls (v : tview) : class :=
       | PPub0 | PBqS => CBottom
       | PBqU => CBqU
       | PCs | PUnlock => CHold
+      | PUnlockCas => CUCas
       | PParked => match k with KCoro => CWait | KPlain => CBad end
       | PPubW | PFlag => match k with KPlain => if f then CHold else CWait | KCoro => CBad end
-      | PStep | PTry | PSub | PDone => CNeutral
+      | PStep | PTry | PSub _ | PDone => CNeutral
       end
   end.
 
-Definition is_hold (c : class) : bool := match c with CBottom | CBqU | CHold => true | _ => false end.
+Definition is_hold (c : class) : bool := match c with CBottom | CBqU | CUCas | CHold => true | _ => false end.
 
 Record view := mkV {
   v_req : ptr; v_q : ptr; v_next : list ptr; v_dn : ptr; v_err : bool;
@@ -57,7 +58,11 @@ Record Inv (V : view) : Prop := {
   i_queue : repr (v_next V) (v_q V) (v_gq V) PNull;
   i_bqu : forall o, cls (v_tv V o) = CBqU -> v_gq V = [] /\ v_gs V <> [];
   i_dn : v_dn V = PNull;
-  i_fifo : v_al V = v_gl V ++ v_gq V ++ rev (v_gs V)
+  i_fifo : v_al V = v_gl V ++ v_gq V ++ rev (v_gs V);
+  (* a requester between two attempts of its publishing CAS: aw->_next holds the value it expects *)
+  i_sub : forall c e, snd (fst (v_tv V c)) = PSub e -> nth c (v_next V) PNull = e;
+  (* the owner found its private queue empty and is about to CAS doorman -> null *)
+  i_ucas : forall o, cls (v_tv V o) = CUCas -> v_gq V = []
 }.
 
 Definition upd (f : nat -> tview) (c : nat) (v : tview) : nat -> tview :=
@@ -183,18 +188,23 @@ Qed.
 Lemma inv_wait_lt V w : Inv V -> In w (v_gs V ++ v_gq V) -> w < length (v_next V).
 Proof. intros I H. apply (i_wait V I) in H. apply inv_lt; [exact I|]. left. congruence. Qed.
 
+Lemma psub_neutral v e : snd (fst v) = PSub e -> cls v = CNeutral.
+Proof. destruct v as [[k p] f]. cbn. intros ->. reflexivity. Qed.
+
 (* ---------- transitions that keep every task in its class ---------- *)
 Lemma inv_cls V tv' : Inv V -> (forall x, cls (tv' x) = cls (v_tv V x)) ->
   (forall c, length (v_next V) <= c -> tv' c = dflt_tv) ->
+  (forall c e, snd (fst (tv' c)) = PSub e -> snd (fst (v_tv V c)) = PSub e) ->
   Inv (mkV (v_req V) (v_q V) (v_next V) (v_dn V) (v_err V) (v_own V) (v_gs V) (v_gq V) (v_al V) (v_gl V) tv').
 Proof.
-  intros I H D. destruct I. constructor; cbn [v_req v_q v_next v_dn v_err v_own v_gs v_gq v_al v_gl v_tv]; auto.
+  intros I H D HS. destruct I. constructor; cbn [v_req v_q v_next v_dn v_err v_own v_gs v_gq v_al v_gl v_tv]; auto.
   - intros c. rewrite H. auto.
   - intros c. rewrite H. auto.
   - intros w. rewrite H. auto.
   - intros o O. specialize (i_stack0 o O). unfold bottom in *. cbn [v_tv]. rewrite H. exact i_stack0.
   - intros o. rewrite H. apply i_bot0.
   - intros o. rewrite H. apply i_bqu0.
+  - intros o. rewrite H. apply i_ucas0.
 Qed.
 
 (* ---------- mutex::ready(): CAS null -> doorman succeeded (mutex.h:185) ---------- *)
@@ -220,6 +230,8 @@ Proof.
   - intros o. upd_case o c; [rewrite H; discriminate|]. apply (i_bqu V I).
   - apply (i_dn V I).
   - apply (i_fifo V I).
+  - intros x e. upd_case x c; [intros Q; apply psub_neutral in Q; congruence|apply (i_sub V I)].
+  - intros z. upd_case z c; [rewrite H; discriminate|]. apply (i_ucas V I).
 Qed.
 
 (* ---------- mutex::subscribe(): publishing CAS found null (mutex.h:198-203) ---------- *)
@@ -249,6 +261,8 @@ Proof.
   - intros o. upd_case o c; [rewrite H; discriminate|]. apply (i_bqu V I).
   - apply (i_dn V I).
   - rewrite (i_fifo V I), GS, GQ. cbn [app rev]. rewrite !app_nil_r. reflexivity.
+  - intros x e. upd_case x c; [intros Q; apply psub_neutral in Q; congruence|]. rewrite nth_set_nth_other by auto. apply (i_sub V I).
+  - intros z. upd_case z c; [rewrite H; discriminate|]. apply (i_ucas V I).
 Qed.
 
 (* ---------- mutex::subscribe(): published behind an owner (mutex.h:198-200, 212-214) ---------- *)
@@ -284,6 +298,42 @@ Proof.
   - intros x. upd_case x c; [rewrite H; discriminate|]. intros Q. destruct (i_bqu V I x Q) as [A B]. split; [exact A|discriminate].
   - apply (i_dn V I).
   - rewrite (i_fifo V I). cbn [rev]. rewrite !app_assoc. reflexivity.
+  - intros x e. upd_case x c; [intros Q; apply psub_neutral in Q; congruence|]. rewrite nth_set_nth_other by auto. apply (i_sub V I).
+  - intros z. upd_case z c; [rewrite H; discriminate|]. apply (i_ucas V I).
+Qed.
+
+(* ---------- subscribe(): aw->_next = prev before an attempt of the publishing CAS (mutex.h:199) ---------- *)
+Lemma inv_sub_set V c v' e : Inv V -> cls (v_tv V c) = CNeutral -> c < length (v_next V) ->
+  cls v' = CNeutral -> snd (fst v') = PSub e ->
+  Inv (mkV (v_req V) (v_q V) (set_nth (v_next V) c e) (v_dn V) (v_err V) (v_own V) (v_gs V) (v_gq V)
+           (v_al V) (v_gl V) (upd (v_tv V) c v')).
+Proof.
+  intros I N L H P.
+  assert (Nc : ~ In c (v_gs V ++ v_gq V)) by (intro Q; apply (i_wait V I) in Q; congruence).
+  assert (Noc : forall o, is_hold (cls (v_tv V o)) = true -> o <> c) by (intros o Q E; subst o; rewrite N in Q; discriminate).
+  constructor; cbn [v_req v_q v_next v_dn v_err v_own v_gs v_gq v_al v_gl v_tv].
+  - intros x Lx. rewrite set_nth_len in Lx. rewrite upd_other by lia. apply (i_dom V I). exact Lx.
+  - apply (i_err V I).
+  - intros x. upd_case x c; [congruence|apply (i_bad V I)].
+  - intros x. upd_case x c; [|apply (i_own V I)]. rewrite H. rewrite <- (i_own V I c), N. tauto.
+  - intros x. upd_case x c; [|apply (i_wait V I)]. rewrite H. split; [discriminate|]. intros Q. contradiction.
+  - apply (i_nodup V I).
+  - apply (i_free V I).
+  - intros o O. assert (Oc : o <> c) by (apply Noc; apply (i_own V I); exact O).
+    assert (B : bottom (mkV (v_req V) (v_q V) (set_nth (v_next V) c e) (v_dn V) (v_err V) (v_own V) (v_gs V) (v_gq V)
+                  (v_al V) (v_gl V) (upd (v_tv V) c v')) o = bottom V o).
+    { unfold bottom. cbn [v_tv]. rewrite upd_other by exact Oc. reflexivity. }
+    rewrite B. apply repr_frame; [intro Q'; apply Nc; apply in_or_app; auto|]. apply (i_stack V I). exact O.
+  - intros x. upd_case x c; [rewrite H; discriminate|]. intros Q. destruct (i_bot V I x Q) as [A B]. split; [|exact B].
+    rewrite nth_set_nth_other by auto. exact A.
+  - apply repr_frame; [intro Q'; apply Nc; apply in_or_app; auto|]. apply (i_queue V I).
+  - intros x. upd_case x c; [rewrite H; discriminate|]. apply (i_bqu V I).
+  - apply (i_dn V I).
+  - apply (i_fifo V I).
+  - intros x e'. upd_case x c.
+    + intros Q. rewrite nth_set_nth_same by exact L. congruence.
+    + rewrite nth_set_nth_other by auto. apply (i_sub V I).
+  - intros z. upd_case z c; [rewrite H; discriminate|]. apply (i_ucas V I).
 Qed.
 
 Lemma nodup_bound l n : NoDup l -> (forall x, In x l -> x < n) -> length l <= n.
@@ -344,22 +394,28 @@ Proof.
         eapply only_owner; [exact I|exact O|rewrite Q; reflexivity].
       * apply (i_dn V I).
       * rewrite (i_fifo V I), GQ. cbn [app rev]. rewrite app_nil_r. reflexivity.
+      * intros x e. upd_case x c; [intros Q; apply psub_neutral in Q; congruence|]. intros Q.
+        rewrite O1; [apply (i_sub V I); exact Q|]. intro Z.
+        assert (W : cls (v_tv V x) = CWait) by (apply (i_wait V I); apply in_or_app; auto).
+        apply psub_neutral in Q. congruence.
+      * intros o. upd_case o c; [rewrite H; discriminate|]. intros Q. exfalso. apply N.
+        eapply only_owner; [exact I|exact O|rewrite Q; reflexivity].
     + split; [|exact L1]. intros NE. destruct (rev (v_gs V)) as [|x r] eqn:Z.
       * exfalso. apply NE. apply (f_equal (@rev nat)) in Z. rewrite rev_involutive in Z. exact Z.
       * eauto.
 Qed.
 
 (* ---------- unlock(): queue empty and CAS doorman -> null succeeded (mutex.h:154-160) ---------- *)
-Lemma inv_unlock_free V c v' : Inv V -> cls (v_tv V c) = CHold -> v_q V = PNull -> v_req V = PDoor -> cls v' = CNeutral ->
+Lemma inv_unlock_free V c v' : Inv V -> cls (v_tv V c) = CUCas -> v_req V = PDoor -> cls v' = CNeutral ->
+  (forall e, snd (fst v') <> PSub e) ->
   Inv (mkV PNull (v_q V) (v_next V) (v_dn V) (v_err V) None (v_gs V) (v_gq V) (v_al V) (v_gl V) (upd (v_tv V) c v')).
 Proof.
-  intros I C Q E H.
+  intros I C E H NS.
   assert (Hc : is_hold (cls (v_tv V c)) = true) by (rewrite C; reflexivity).
   pose proof (inv_hold_own V c I Hc) as O.
   pose proof (i_stack V I c O) as R. unfold bottom in R. rewrite C, E in R.
   destruct (repr_nil_inv _ _ _ _ R) as [GS _]; [discriminate|].
-  pose proof (i_queue V I) as RQ. rewrite Q in RQ.
-  destruct (repr_nil_inv _ _ _ _ RQ) as [GQ _]; [discriminate|].
+  pose proof (i_ucas V I c C) as GQ.
   assert (Lc : c < length (v_next V)) by (apply inv_lt; [exact I|left; congruence]).
   constructor; cbn [v_req v_q v_next v_dn v_err v_own v_gs v_gq v_al v_gl v_tv].
   - intros x Lx. rewrite upd_other by lia. apply (i_dom V I). exact Lx.
@@ -376,18 +432,19 @@ Proof.
   - intros o. upd_case o c; [rewrite H; discriminate|]. apply (i_bqu V I).
   - apply (i_dn V I).
   - apply (i_fifo V I).
+  - intros x e. upd_case x c; [intros Z; exfalso; eapply NS; exact Z|apply (i_sub V I)].
+  - intros z. upd_case z c; [rewrite H; discriminate|]. apply (i_ucas V I).
 Qed.
 
 (* ---------- unlock(): queue empty, CAS failed: requests were published (mutex.h:161-165) ---------- *)
-Lemma inv_unlock_bqu V c v' : Inv V -> cls (v_tv V c) = CHold -> v_q V = PNull -> v_req V <> PDoor -> cls v' = CBqU ->
+Lemma inv_unlock_bqu V c v' : Inv V -> cls (v_tv V c) = CUCas -> v_req V <> PDoor -> cls v' = CBqU ->
   Inv (mkV (v_req V) (v_q V) (v_next V) (v_dn V) (v_err V) (v_own V) (v_gs V) (v_gq V) (v_al V) (v_gl V) (upd (v_tv V) c v')).
 Proof.
-  intros I C Q E H.
+  intros I C E H.
   assert (Hc : is_hold (cls (v_tv V c)) = true) by (rewrite C; reflexivity).
   pose proof (inv_hold_own V c I Hc) as O.
   pose proof (i_stack V I c O) as R. unfold bottom in R. rewrite C in R.
-  pose proof (i_queue V I) as RQ. rewrite Q in RQ.
-  destruct (repr_nil_inv _ _ _ _ RQ) as [GQ _]; [discriminate|].
+  pose proof (i_ucas V I c C) as GQ.
   assert (GS : v_gs V <> []) by (intro Z; rewrite Z in R; cbn [repr] in R; contradiction).
   assert (Lc : c < length (v_next V)) by (apply inv_lt; [exact I|left; congruence]).
   constructor; cbn [v_req v_q v_next v_dn v_err v_own v_gs v_gq v_al v_gl v_tv].
@@ -405,16 +462,48 @@ Proof.
   - intros o. upd_case o c; [auto|]. apply (i_bqu V I).
   - apply (i_dn V I).
   - apply (i_fifo V I).
+  - intros x e. upd_case x c; [intros Z; apply psub_neutral in Z; congruence|apply (i_sub V I)].
+  - intros z. upd_case z c; [rewrite H; discriminate|]. apply (i_ucas V I).
+Qed.
+
+(* ---------- unlock(): the private queue is empty, the fast path will be tried (mutex.h:154-157) ---------- *)
+Lemma inv_unlock_ucas V c v' : Inv V -> cls (v_tv V c) = CHold -> v_q V = PNull -> cls v' = CUCas ->
+  Inv (mkV (v_req V) (v_q V) (v_next V) (v_dn V) (v_err V) (v_own V) (v_gs V) (v_gq V) (v_al V) (v_gl V) (upd (v_tv V) c v')).
+Proof.
+  intros I C Q H.
+  assert (Hc : is_hold (cls (v_tv V c)) = true) by (rewrite C; reflexivity).
+  pose proof (inv_hold_own V c I Hc) as O.
+  pose proof (i_stack V I c O) as R. unfold bottom in R. rewrite C in R.
+  pose proof (i_queue V I) as RQ. rewrite Q in RQ.
+  destruct (repr_nil_inv _ _ _ _ RQ) as [GQ _]; [discriminate|].
+  assert (Lc : c < length (v_next V)) by (apply inv_lt; [exact I|left; congruence]).
+  constructor; cbn [v_req v_q v_next v_dn v_err v_own v_gs v_gq v_al v_gl v_tv].
+  - intros x Lx. rewrite upd_other by lia. apply (i_dom V I). exact Lx.
+  - apply (i_err V I).
+  - intros x. upd_case x c; [congruence|apply (i_bad V I)].
+  - intros x. upd_case x c; [rewrite H; cbn; tauto|]. apply (i_own V I).
+  - intros x. upd_case x c; [|apply (i_wait V I)]. rewrite H. split; [discriminate|].
+    intros Z. apply (i_wait V I) in Z. congruence.
+  - apply (i_nodup V I).
+  - apply (i_free V I).
+  - intros o Z. rewrite O in Z. inversion Z; subst o. unfold bottom. cbn [v_tv]. rewrite upd_same, H. exact R.
+  - intros o. upd_case o c; [rewrite H; discriminate|]. apply (i_bot V I).
+  - apply (i_queue V I).
+  - intros o. upd_case o c; [rewrite H; discriminate|]. apply (i_bqu V I).
+  - apply (i_dn V I).
+  - apply (i_fifo V I).
+  - intros x e. upd_case x c; [intros Z; apply psub_neutral in Z; congruence|apply (i_sub V I)].
+  - intros o. upd_case o c; [auto|]. apply (i_ucas V I).
 Qed.
 
 (* ---------- unlock(): hand-over to the head of the queue (mutex.h:170-176) ---------- *)
 Lemma inv_handover V c w v' vw' : Inv V -> cls (v_tv V c) = CHold -> v_q V = PNode w ->
-  cls v' = CNeutral -> cls vw' = CHold ->
+  cls v' = CNeutral -> cls vw' = CHold -> (forall e, snd (fst v') <> PSub e) ->
   cls (v_tv V w) = CWait /\ w <> c /\ (exists r, v_gq V = w :: r) /\
   Inv (mkV (v_req V) (nth w (v_next V) PNull) (set_nth (v_next V) w PNull) (v_dn V) (v_err V) (Some w)
            (v_gs V) (tl (v_gq V)) (v_al V) (v_gl V ++ [w]) (upd (upd (v_tv V) c v') w vw')).
 Proof.
-  intros I C Q H HW.
+  intros I C Q H HW NS.
   assert (Hc : is_hold (cls (v_tv V c)) = true) by (rewrite C; reflexivity).
   pose proof (inv_hold_own V c I Hc) as O.
   pose proof (i_stack V I c O) as R. unfold bottom in R. rewrite C in R.
@@ -454,6 +543,10 @@ Proof.
     intros Z. exfalso. apply N0. eapply only_owner; [exact I|exact O|rewrite Z; reflexivity].
   - apply (i_dn V I).
   - rewrite (i_fifo V I), GQ. cbn [app]. rewrite <- !app_assoc. reflexivity.
+  - intros x e. upd_case x w; [intros Z; apply psub_neutral in Z; congruence|].
+    upd_case x c; [intros Z; exfalso; eapply NS; exact Z|]. rewrite nth_set_nth_other by auto. apply (i_sub V I).
+  - intros o. upd_case o w; [rewrite HW; discriminate|]. upd_case o c; [rewrite H; discriminate|].
+    intros Z. exfalso. apply N0. eapply only_owner; [exact I|exact O|rewrite Z; reflexivity].
 Qed.
 
 (* ================================================================ part 2: the model state *)
@@ -477,6 +570,7 @@ Proof.
   apply Q.
   - intros x. rewrite E11. reflexivity.
   - intros c L. rewrite <- E11. apply (i_dom _ I). exact L.
+  - intros c e Z. rewrite E11. exact Z.
 Qed.
 
 Lemma veq_refl V : veq V V.
@@ -556,15 +650,18 @@ Proof.
 Qed.
 
 (* ---------- a task changes pc inside its class ---------- *)
-Lemma sinv_set_task_cls s c y : SInv s -> c < length (tasks s) -> cls (tvw y) = cls (tvs s c) -> SInv (set_task s c y).
+Lemma sinv_set_task_cls s c y : SInv s -> c < length (tasks s) -> cls (tvw y) = cls (tvs s c) ->
+  (forall e, tpc y <> PSub e) -> SInv (set_task s c y).
 Proof.
-  intros [L I] Lc E. split.
+  intros [L I] Lc E NS. split.
   - unfold set_task, s_tasks. cbn [next tasks]. rewrite set_nth_len. exact L.
   - eapply inv_veq; [|apply (inv_cls (vw s) (upd (tvs s) c (tvw y)) I)].
     + unfold veq, vw. cbn [v_req v_q v_next v_dn v_err v_own v_gs v_gq v_al v_gl v_tv].
       repeat split; try reflexivity. intros x. symmetry. apply tvs_set_task. exact Lc.
     + intros x. cbn [vw v_tv]. unfold upd. destruct (Nat.eqb_spec x c); [subst; exact E|reflexivity].
     + intros x Lx. cbn [vw v_next] in Lx. rewrite upd_other by lia. apply (i_dom _ I). exact Lx.
+    + intros x e. cbn [vw v_tv]. unfold upd. destruct (Nat.eqb_spec x c); [|auto].
+      intros Z. exfalso. apply (NS e). exact Z.
 Qed.
 
 (* a task that is not PDone is a declared task *)
@@ -608,7 +705,7 @@ Proof.
               vw' = match tk (gtask s w) with KPlain => tvw (t_flag (gtask s w) true) | KCoro => tvw (t_pc (gtask s w) PCs) end /\
               w <> c /\ w < length (tasks s)).
     { destruct (inv_handover _ c w (tvw yc) (KCoro, PCs, false) I) as (Ww & Nwc & _ & _);
-        [cbn [v_tv]; rewrite upd_same; exact Hh|reflexivity|exact Hn|reflexivity|].
+        [cbn [v_tv]; rewrite upd_same; exact Hh|reflexivity|exact Hn|reflexivity|intros e; discriminate|].
       cbn [v_tv] in Ww. rewrite upd_other in Ww by exact Nwc.
       assert (Lw : w < length (tasks s)).
       { apply task_lt. intro Z. unfold tvs, tvw in Ww. rewrite Z in Ww. cbn in Ww. discriminate. }
@@ -618,7 +715,7 @@ Proof.
         destruct (flag (gtask s w)); try discriminate; reflexivity. }
     destruct Kw as (vw' & Hw & Evw & Nwc & Lw).
     destruct (inv_handover _ c w (tvw yc) vw' I) as (_ & _ & _ & I2);
-      [cbn [v_tv]; rewrite upd_same; exact Hh|reflexivity|exact Hn|exact Hw|].
+      [cbn [v_tv]; rewrite upd_same; exact Hh|reflexivity|exact Hn|exact Hw|intros e; discriminate|].
     cbn [v_req v_q v_next v_dn v_err v_own v_gs v_gq v_al v_gl v_tv] in I2.
     unfold handover. rewrite EQ.
     cbv zeta.
@@ -668,7 +765,24 @@ Proof. intros E. unfold build_queue. rewrite E. reflexivity. Qed.
 Ltac cls_case SI P :=
   apply sinv_set_task_cls;
   [exact SI | apply task_lt; rewrite P; discriminate
-  | unfold tvs, tvw; cbn [tk tpc flag t_pc t_begin t_endround t_leave t_flag]; rewrite P; reflexivity].
+  | unfold tvs, tvw; cbn [tk tpc flag t_pc t_begin t_endround t_leave t_flag]; rewrite P; reflexivity
+  | intros e; cbn [tk tpc flag t_pc t_begin t_endround t_leave t_flag]; discriminate].
+
+Lemma set_nth_nth_id {A} (l : list A) i d e : nth i l d = e -> set_nth l i e = l.
+Proof. intros <-. revert i. induction l as [|y l IH]; intros [|i]; cbn; auto. now rewrite IH. Qed.
+
+(* subscribe(): aw->_next = e, next attempt of the publishing CAS with expected value e *)
+Lemma sub_set_inv s c e : SInv s -> c < length (tasks s) -> cls (tvs s c) = CNeutral ->
+  SInv (set_pc (s_mem s (requests s) (queue s) (set_nth (next s) c e) (dnext s)) c (PSub e)).
+Proof.
+  intros [L I] Lc Nc. split.
+  - unfold set_pc. rewrite set_task_len. cbn. rewrite set_nth_len. exact L.
+  - refine (inv_veq _ _ _ (inv_sub_set (vw s) c (tvw (t_pc (gtask s c) (PSub e))) e I Nc _ _ _)).
+    + veq_fields. intros x. unfold set_pc. rewrite tvs_set_task by exact Lc. reflexivity.
+    + cbn [vw v_next]. lia.
+    + reflexivity.
+    + reflexivity.
+Qed.
 
 (* ---------- every step of every thread preserves the invariant ---------- *)
 Lemma step_inv s t : SInv s -> enabled s t = true -> SInv (fst (fst (tstep s t))).
@@ -686,6 +800,7 @@ Proof.
     + (* PTry *)
       assert (Lc : c < length (tasks s)) by (apply task_lt; rewrite P; discriminate).
       assert (Nc : cls (tvs s c) = CNeutral) by (unfold tvs, tvw; rewrite P; reflexivity).
+      pose proof (sub_set_inv s c PNull SI Lc Nc) as SubSet.
       destruct (requests s) eqn:Rq; cbn [fst].
       * eapply sinv_same; [apply same_enter|]. split.
         -- unfold set_pc. rewrite set_task_len. exact L.
@@ -693,25 +808,29 @@ Proof.
            ++ veq_fields. intros x. unfold set_pc. rewrite tvs_set_task by exact Lc. reflexivity.
            ++ cbn [vw v_next]. lia.
            ++ reflexivity.
-      * destruct (cacq (gtask s c)); [unfold set_pc|]; cls_case SI P.
-      * destruct (cacq (gtask s c)); [unfold set_pc|]; cls_case SI P.
-    + (* PSub *)
+      * destruct (cacq (gtask s c)); [exact SubSet|cls_case SI P].
+      * destruct (cacq (gtask s c)); [exact SubSet|cls_case SI P].
+    + (* PSub e *)
       assert (Lc : c < length (tasks s)) by (apply task_lt; rewrite P; discriminate).
       assert (Nc : cls (tvs s c) = CNeutral) by (unfold tvs, tvw; rewrite P; reflexivity).
+      destruct (ptr_eqb (requests s) e) eqn:EQ; cbn [fst]; [|exact (sub_set_inv s c (requests s) SI Lc Nc)].
+      apply ptr_eqb_eq in EQ. subst e.
+      assert (SN : set_nth (next s) c (requests s) = next s).
+      { apply (set_nth_nth_id (next s) c PNull). apply (i_sub _ I c). cbn [vw v_tv]. unfold tvs, tvw. cbn [fst snd]. exact P. }
       assert (Sub : forall y, cls (tvw y) = CWait -> requests s <> PNull ->
-                SInv (set_task (s_ghost (s_mem s (PNode c) (queue s) (set_nth (next s) c (requests s)) (dnext s))
+                SInv (set_task (s_ghost (s_ev (s_mem s (PNode c) (queue s) (next s) (dnext s)) 5 c)
                                         (owner s) (c :: gstack s) (gqueue s) (alog s ++ [c]) (glog s)) c y)).
       { intros y Cy Rq. split.
-        - rewrite set_task_len. cbn. rewrite set_nth_len. exact L.
+        - rewrite set_task_len. exact L.
         - refine (inv_veq _ _ _ (inv_subw (vw s) c (tvw y) I Rq Nc _ Cy)).
-          + veq_fields. intros x. rewrite tvs_set_task by exact Lc. reflexivity.
+          + veq_fields; [exact SN|]. intros x. rewrite tvs_set_task by exact Lc. reflexivity.
           + cbn [vw v_next]. lia. }
       cbv zeta.
       destruct (requests s) eqn:Rq; cbn [fst].
       * split.
-        -- unfold set_pc. rewrite set_task_len. cbn. rewrite set_nth_len. exact L.
+        -- unfold set_pc. rewrite set_task_len. exact L.
         -- refine (inv_veq _ _ _ (inv_sub0 (vw s) c (tvw (t_pc (gtask s c) PPub0)) I Rq Nc _ _)).
-           ++ veq_fields. intros x. unfold set_pc. rewrite tvs_set_task by exact Lc. reflexivity.
+           ++ veq_fields; [exact SN|]. intros x. unfold set_pc. rewrite tvs_set_task by exact Lc. reflexivity.
            ++ cbn [vw v_next]. lia.
            ++ reflexivity.
       * destruct (tk (gtask s c)) eqn:K; cbn [fst].
@@ -741,34 +860,50 @@ Proof.
     + (* PFlag *)
       pose proof (enabled_flag s t c En R P) as F.
       eapply sinv_same; [apply same_enter|].
-      apply sinv_set_task_cls; [exact SI|apply task_lt; rewrite P; discriminate|].
+      apply sinv_set_task_cls; [exact SI|apply task_lt; rewrite P; discriminate| |intros e; discriminate].
       pose proof (i_bad _ I c) as B. cbn [vw v_tv] in B. unfold tvs, tvw in *. unfold t_pc, t_flag.
       cbn [tk tpc flag]. rewrite P, F in *. cbn [cls] in *.
       destruct (tk (gtask s c)); [exfalso; apply B; reflexivity|reflexivity].
-    + cls_case SI P.
+    + (* PCs: leave the critical section *)
+      apply sinv_set_task_cls; [exact SI| | |intros e; discriminate].
+      * change (c < length (tasks s)). apply task_lt. rewrite P. discriminate.
+      * change (cls (tvw (t_leave (gtask s c))) = cls (tvs s c)). unfold tvs, tvw. cbn [tk tpc flag t_leave]. rewrite P. reflexivity.
     + (* PUnlock *)
       assert (Lc : c < length (tasks s)) by (apply task_lt; rewrite P; discriminate).
       assert (Hc : cls (v_tv (vw s) c) = CHold) by (cbn [vw v_tv]; unfold tvs, tvw; rewrite P; reflexivity).
-      assert (Bqu : queue s = PNull -> requests s <> PDoor -> SInv (set_pc s c PBqU)).
-      { intros Q Rq. split.
-        - unfold set_pc. rewrite set_task_len. exact L.
-        - refine (inv_veq _ _ _ (inv_unlock_bqu (vw s) c (tvw (t_pc (gtask s c) PBqU)) I Hc Q Rq _)).
-          + veq_fields. intros x. unfold set_pc. rewrite tvs_set_task by exact Lc. reflexivity.
-          + reflexivity. }
       assert (Hand : queue s <> PNull -> SInv (handover s t c)).
       { intros Q. apply handover_inv with (vh := tvs s c); try assumption.
         eapply inv_veq; [|exact I]. veq_fields. intros x. symmetry. apply upd_id. }
-      destruct (queue s) eqn:Q; cbn [fst].
-      * destruct (requests s) eqn:Rq; cbn [fst].
-        -- apply Bqu; [reflexivity|discriminate].
-        -- split.
-           ++ rewrite set_task_len. exact L.
-           ++ refine (inv_veq _ _ _ (inv_unlock_free (vw s) c (tvw (t_endround (gtask s c) false)) I Hc Q Rq _)).
-              ** veq_fields; try assumption; try (symmetry; assumption). intros x. rewrite tvs_set_task by exact Lc. reflexivity.
-              ** reflexivity.
-        -- apply Bqu; [reflexivity|discriminate].
-      * apply Hand. discriminate.
-      * apply Hand. discriminate.
+      assert (UC : queue s = PNull -> SInv (set_pc s c PUnlockCas)).
+      { intros Q. split.
+        - unfold set_pc. rewrite set_task_len. exact L.
+        - refine (inv_veq _ _ _ (inv_unlock_ucas (vw s) c (tvw (t_pc (gtask s c) PUnlockCas)) I Hc Q _)).
+          + veq_fields. intros x. unfold set_pc. rewrite tvs_set_task by exact Lc. reflexivity.
+          + reflexivity. }
+      assert (RN : requests s <> PNull).
+      { intro Z. apply (inv_req_null _ I) in Z. cbn [vw v_own] in Z.
+        assert (O : v_own (vw s) = Some c) by (apply inv_hold_own; [exact I|rewrite Hc; reflexivity]).
+        cbn [vw v_own] in O. congruence. }
+      destruct (requests s) eqn:Rq; cbn [fst]; [contradiction| |];
+        (destruct (queue s) eqn:Q; cbn [fst]; [apply UC; reflexivity|apply Hand; discriminate|apply Hand; discriminate]).
+    + (* PUnlockCas *)
+      assert (Lc : c < length (tasks s)) by (apply task_lt; rewrite P; discriminate).
+      assert (Hc : cls (v_tv (vw s) c) = CUCas) by (cbn [vw v_tv]; unfold tvs, tvw; rewrite P; reflexivity).
+      assert (Bqu : requests s <> PDoor -> SInv (set_pc s c PBqU)).
+      { intros Rq. split.
+        - unfold set_pc. rewrite set_task_len. exact L.
+        - refine (inv_veq _ _ _ (inv_unlock_bqu (vw s) c (tvw (t_pc (gtask s c) PBqU)) I Hc Rq _)).
+          + veq_fields. intros x. unfold set_pc. rewrite tvs_set_task by exact Lc. reflexivity.
+          + reflexivity. }
+      destruct (requests s) eqn:Rq; cbn [fst].
+      * apply Bqu. discriminate.
+      * split.
+        -- rewrite set_task_len. exact L.
+        -- refine (inv_veq _ _ _ (inv_unlock_free (vw s) c (tvw (t_endround (gtask s c) false)) I Hc Rq _ _)).
+           ++ veq_fields; try assumption; try (symmetry; assumption). intros x. rewrite tvs_set_task by exact Lc. reflexivity.
+           ++ reflexivity.
+           ++ intros e. discriminate.
+      * apply Bqu. discriminate.
     + (* PBqU *)
       assert (Lc : c < length (tasks s)) by (apply task_lt; rewrite P; discriminate).
       assert (Cc : cls (v_tv (vw s) c) = CBqU) by (cbn [vw v_tv]; unfold tvs, tvw; rewrite P; reflexivity).
@@ -843,6 +978,9 @@ Proof.
     + intros o. rewrite init_cls. discriminate.
     + reflexivity.
     + reflexivity.
+    + intros c e Q. exfalso. unfold tvs, tvw in Q. cbn [fst snd] in Q.
+      destruct (init_pc ops c) as [E|E]; rewrite E in Q; discriminate.
+    + intros o. rewrite init_cls. discriminate.
 Qed.
 
 Lemma reachable_inv ops s : reachable ops s -> SInv s.
@@ -852,7 +990,7 @@ Proof. induction 1 as [|s t _ IH En]; [apply init_inv|apply step_inv; assumption
 (* c owns the mutex: from the successful CAS / the hand-over up to the end of its unlock *)
 Definition holds (s : st) (c : nat) : Prop :=
   match tpc (gtask s c) with
-  | PPub0 | PBqS | PCs | PUnlock | PBqU => True
+  | PPub0 | PBqS | PCs | PUnlock | PUnlockCas | PBqU => True
   | PPubW | PFlag => flag (gtask s c) = true
   | _ => False
   end.
